@@ -15,7 +15,7 @@ PROPS["C15"] = dict(
           "dipoles): segment energies both ways, ApplyStaticField return value, accumulated field = dE/dmu (oracle and E(mu+e)-E(mu) on the "
           "code), correct accumulator; non-trivial = mixed ranks and >= 2 site pairs. thole: polarisable sites with isotropic / rotated "
           "anisotropic polarisabilities, damping 0.1..1, separations 0.5..100 bohr: symmetry, closed form, trace 3 a u^3 exp(-a u^3), monotone bound "
-          "to the undamped tensor; non-trivial = general direction and a u^3 < 40."),
+          "to the undamped tensor; non-trivial = general direction and a u^3 < 40. Histories / aliasing: rotation centre passed as a reference to a participating site's own position; Reset() followed by a second application (incl. the noE_V flavour) must equal a first application on fresh sites."),
     assumptions=COMMON_ASSUME + [
         "multipole components beyond a site's rank are zero (invariant of the mps reader and of setCharge)",
         "energy comparisons are relative to S = sum over rank pairs of (2L-1)!! |M_A||M_B|/R^(L+1) (cancellation between terms is expected), 1e-12 S",
